@@ -4,8 +4,8 @@ import PPModel.Mod.Entry
 # C01 — closed theorem: the parsing algorithm computes the PEG reading (plain fragment)
 
 `Sem` (Props/C01SemDef.lean) is the PEG reading with pyparsing's whitespace rule as one inductive big-step relation.
-For every *plain* node table (`Plain g`: literals, Empty, NoMatch, StringEnd, And, MatchFirst, Opt, OneOrMore, ZeroOrMore,
-NotAny, FollowedBy, Group, Suppress, Forward and plain wrappers, any whitespace configuration, arbitrary sharing and
+For every *plain* node table (`Plain g`: literals, Empty, NoMatch, StringEnd, the character-class terminals, And, MatchFirst, Or, Opt, OneOrMore, ZeroOrMore,
+NotAny, FollowedBy, Group, Suppress, Combine, Forward and plain wrappers, any whitespace configuration, arbitrary sharing and
 recursion through Forward; no parse actions / results names / ignorables / error stops), every input, every
 location, both values of `callPreParse` and of `doActions`, and every fuel:
 
@@ -30,7 +30,7 @@ location, both values of `callPreParse` and of `doActions`, and every fuel:
                           `parse_string(s)` returns `(l, ts)` for some fuel iff the reading derives that match for the root
                           at location 0; with `parse_all=True` iff in addition only skippable whitespace follows.
 
-PARTIAL w.r.t. the whole combinator language: the fragment excludes `Or`, `Each`, `SkipTo`, `Word`/`Regex` terminals, parse actions and ignorables, for
+PARTIAL w.r.t. the whole combinator language: the fragment excludes `Each`, `SkipTo`, `Located`, `Regex` terminals, `stop_on`, parse actions / results names and ignorables, for
 which the clause theorems of Props/C01.lean and the reference-interpreter oracle remain the evidence.
 -/
 namespace PP.Parse
@@ -245,6 +245,12 @@ private theorem sem_of_okView (g : Grammar) (s : List Char) (hg : Plain g) (f id
   | fail _ _ => rw [hq] at hv; cases hv
   | idx => rw [hq] at hv; cases hv
   | hang => rw [hq] at hv; cases hv
+/-- `'a' ^ 'ab' ^ 'ab'`: the longest alternative wins although it is not the first -/
+private def gOr : Grammar := [nd (.lit1 'a'), nd (.lit ['a', 'b']), nd (.or [0, 1, 1])]
+example : Plain gOr := by decide
+example : okView (parse gOr " ab".toList 10 2 0 false true) = some (3, "ab".toList, 1) := by decide +kernel
+example : ∃ ts, Sem gOr " ab".toList (.node 2 0 true) (some (3, ts)) ∧ strsL ts = "ab".toList :=
+  sem_of_okView gOr _ (by decide) 10 2 0 false true (3, "ab".toList, 1) (by decide +kernel)
 example : Sem gEx "(ab )".toList (.node 6 0 true) none :=
   sem_of_failView gEx _ (by decide) 40 6 0 true true 3 (by decide +kernel)
 example : ∃ ts, Sem gEx " ( ab (ab))ab".toList (.node 6 0 true) (some (14, ts)) ∧ strsL ts = "(ab(ab))ab".toList :=
